@@ -11,6 +11,7 @@ import (
 	"time"
 
 	"github.com/biscuit-auth/biscuit-go/v2"
+	"github.com/biscuit-auth/biscuit-go/v2/datalog"
 	"github.com/biscuit-auth/biscuit-go/v2/parser"
 )
 
@@ -160,8 +161,27 @@ func (g *textGen) substExpr(e Expr) Expr {
 	return out
 }
 
-var pPredNames = []string{"resource", "operation", "right", "user", "owner", "p", "q", "time", "ns:pred", "a1_b"}
-var pVarNames = []string{"x", "y", "0", "var_1", "a:b", "Z9"}
+var pPredNames = []string{"resource", "operation", "right", "user", "owner", "p", "q", "time", "ns:pred", "a1_b", "query"}
+var pVarNames = append([]string{"x", "y", "0", "var_1", "a:b", "Z9"}, defaultSymbolEdges()...)
+
+// defaultSymbolEdges: the first, the last and a middle entry of the library's default symbol
+// table, read through the library: names at the edges of the table are where index
+// arithmetic in the printers goes wrong.
+func defaultSymbolEdges() []string {
+	t := &datalog.SymbolTable{}
+	var all []string
+	for i := 0; i < 1024; i++ {
+		s := t.Str(datalog.String(i))
+		if strings.HasPrefix(s, "<invalid") {
+			break
+		}
+		all = append(all, s)
+	}
+	if len(all) == 0 {
+		return nil
+	}
+	return []string{all[0], all[len(all)/2], all[len(all)-1]}
+}
 var pStrings = []string{"", "a", "file1", "/a/file1.txt", "read", "é", "hello world", "x=1;y", "a,b"}
 
 func (g *textGen) atomTerm(allowVar bool) Term {
